@@ -291,11 +291,17 @@ def unjson_float(x):
 
 
 # ------------------------------------------------------------ static proofs
-def ensure_static_built():
-    """The static Coq development (substrate, models, proofs) must be built
-    and up to date with its sources; (re)build if not."""
+def ensure_static_built(cid=None, targets=()):
+    """The static Coq development needed by this property (its property file
+    and the models its cases import) must be built and up to date with its
+    sources; (re)build if not.  `make` decides from timestamps."""
     subprocess.run([os.path.join(COQ, "mkproject.sh")], cwd=COQ, check=True, capture_output=True)
-    p = subprocess.run(["timeout", "3000", "make", "-j%d" % NPROC], cwd=COQ, capture_output=True, text=True)
+    tg = list(targets)
+    listed = open(os.path.join(COQ, "_CoqProject")).read().split()
+    if cid and ("Properties/%s.v" % cid) in listed:
+        tg.append("Properties/%s.vo" % cid)
+    tg += ["FloatFun.vo"]
+    p = subprocess.run(["timeout", "3000", "make", "-j%d" % NPROC] + tg, cwd=COQ, capture_output=True, text=True)
     if p.returncode != 0:
         raise RuntimeError("static Coq build failed:\n" + (p.stdout + p.stderr)[-4000:])
 
@@ -307,6 +313,8 @@ def check_property_file(cid):
     path = os.path.join(COQ, "Properties", cid + ".v")
     if not os.path.exists(path):
         return True, [], "no property file"
+    if ("Properties/%s.v" % cid) not in open(os.path.join(COQ, "_CoqProject")).read().split():
+        return False, [], "property file exists but a Proofs file it imports is missing"
     rc, out, err = coqc(path, timeout=1200)
     if rc != 0:
         return False, [], (err or out)[-3000:]
